@@ -397,6 +397,10 @@ def run_case(concepts, case, spec):
                     differ('definition-workflow', 'dup-row-of-transposed:number-of-concepts-changed', base['n'], len(lat))
             p = call(d0.copy)
             if p is not RAISED:
+                if rng.random() < .7:
+                    # the copy is looked at first (printed, its cells read), as one does before rearranging a table
+                    call(str, p), call(lambda: p.bools), call(p.crc32)
+                    COL.count('definitions_read_before_they_are_rearranged')
                 for _ in range(3):
                     call(p.move_object, rng.choice(case['objects']), rng.randrange(n))
                     call(p.move_property, rng.choice(case['properties']), rng.randrange(m))
